@@ -66,12 +66,11 @@ pub fn none() -> Obs {
 pub fn some(o: Obs) -> Obs {
     L(vec![S("some"), o])
 }
-/// `Some(0)` and `None` both mean that no padding is requested
-pub fn opt_n(o: Option<u8>) -> Obs {
-    let o = o.filter(|p| *p != 0);
-    opt_n_raw(o)
+/// builder side only: `Some(0)` and `None` both mean that no padding is requested
+pub fn opt_pad(o: Option<u8>) -> Obs {
+    opt_n(o.filter(|p| *p != 0))
 }
-fn opt_n_raw(o: Option<u8>) -> Obs {
+pub fn opt_n(o: Option<u8>) -> Obs {
     match o {
         None => none(),
         Some(p) => some(N(p as u128)),
@@ -1411,7 +1410,7 @@ fn run_build(bufspec: &str, m: &Member) -> Result<Kvs, String> {
         (
             "get_padding".to_string(),
             match guard(|| w.pad()) {
-                Ok(p) => opt_n(p),
+                Ok(p) => opt_pad(p),
                 Err(()) => S("PANIC"),
             },
         ),
